@@ -438,7 +438,13 @@ func c11RunVictim(r *ck.Run, st *pxStore, v c11Victim) {
 			det["followup_error"] = err.Error()
 			r.Violation(ck.JoinSig("crash", v.Name, metaClass(st.Cfg), "later-PUT-fails:"+errClassAPI(err)), det)
 		}
+		// ... nor do they keep the bucket from being emptied and deleted through the API
+		if msg := c11EmptyAndDelete(st); msg != "" {
+			det["cleanup_error"] = msg
+			r.Violation(ck.JoinSig("crash", v.Name, metaClass(st.Cfg), "bucket-cannot-be-emptied-and-deleted:"+strings.SplitN(msg, ":", 2)[0]), det)
+		}
 	}
+	_ = c11EmptyAndDelete
 	if v.Name == "PutObject overwrite" && !st.Cfg.NoTmp && !st.Cfg.Versioning && !st.Cfg.Sidecar {
 		r.Sample(map[string]any{"victim": v.Name, "config": st.Cfg.String(), "steps": labels})
 	}
@@ -573,3 +579,52 @@ func c11VersionsDetail(pre, post, got string) string {
 }
 
 var _ = auth.Account{}
+
+// c11EmptyAndDelete removes everything the API shows in the bucket (versions, delete markers, objects, uploads) and
+// then deletes the bucket; returns "" or "<step>: <error class>".
+func c11EmptyAndDelete(st *pxStore) string {
+	p := st.B
+	empty := ""
+	max := int32(1000)
+	if st.Cfg.Versioning {
+		lv, err := p.ListObjectVersions(st.ctx(), &s3.ListObjectVersionsInput{Bucket: sp(c11Bucket), Prefix: &empty, Delimiter: &empty, KeyMarker: &empty, VersionIdMarker: &empty, MaxKeys: &max})
+		if err == nil {
+			for _, v := range lv.Versions {
+				p.DeleteObject(st.ctx(), &s3.DeleteObjectInput{Bucket: sp(c11Bucket), Key: v.Key, VersionId: v.VersionId})
+			}
+			for _, d := range lv.DeleteMarkers {
+				p.DeleteObject(st.ctx(), &s3.DeleteObjectInput{Bucket: sp(c11Bucket), Key: d.Key, VersionId: d.VersionId})
+			}
+		}
+	}
+	lst, err := p.ListObjectsV2(st.ctx(), &s3.ListObjectsV2Input{Bucket: sp(c11Bucket), Prefix: &empty, Delimiter: &empty, StartAfter: &empty, ContinuationToken: &empty, MaxKeys: &max})
+	if err != nil {
+		return "list: " + errClassAPI(err)
+	}
+	for _, o := range lst.Contents {
+		if _, err := p.DeleteObject(st.ctx(), &s3.DeleteObjectInput{Bucket: sp(c11Bucket), Key: o.Key}); err != nil {
+			return "delete-object: " + errClassAPI(err)
+		}
+	}
+	if st.Cfg.Versioning {
+		// the deletes above left markers: remove them by id
+		if lv, err := p.ListObjectVersions(st.ctx(), &s3.ListObjectVersionsInput{Bucket: sp(c11Bucket), Prefix: &empty, Delimiter: &empty, KeyMarker: &empty, VersionIdMarker: &empty, MaxKeys: &max}); err == nil {
+			for _, v := range lv.Versions {
+				p.DeleteObject(st.ctx(), &s3.DeleteObjectInput{Bucket: sp(c11Bucket), Key: v.Key, VersionId: v.VersionId})
+			}
+			for _, d := range lv.DeleteMarkers {
+				p.DeleteObject(st.ctx(), &s3.DeleteObjectInput{Bucket: sp(c11Bucket), Key: d.Key, VersionId: d.VersionId})
+			}
+		}
+	}
+	if ups, err := p.ListMultipartUploads(st.ctx(), &s3.ListMultipartUploadsInput{Bucket: sp(c11Bucket), Prefix: &empty, Delimiter: &empty, KeyMarker: &empty, UploadIdMarker: &empty, MaxUploads: &max}); err == nil {
+		for _, u := range ups.Uploads {
+			k, id := u.Key, u.UploadID
+			p.AbortMultipartUpload(st.ctx(), &s3.AbortMultipartUploadInput{Bucket: sp(c11Bucket), Key: &k, UploadId: &id})
+		}
+	}
+	if err := p.DeleteBucket(st.ctx(), c11Bucket); err != nil {
+		return "delete-bucket: " + errClassAPI(err)
+	}
+	return ""
+}
